@@ -785,6 +785,7 @@ CONSTANTS
   Sec = 10
   MaxT = 28
   MaxReq = 14
+  Idle = 23
 INVARIANT Emit
 CHECK_DEADLOCK FALSE
 """ % (mset("a", naddr), limit)
@@ -793,6 +794,12 @@ CHECK_DEADLOCK FALSE
         if "Error:" in g["out"] or not bs:
             raise Inconclusive("MCRateLimit generator failed:\n" + g["out"][-2000:])
         behaviours += bs
+        # the directed idle-then-burst behaviour of this limit
+        gi2 = vlib.tlc(work, "rl-idle%d" % gi, "MCRateLimit", gcfg.replace("SPECIFICATION GSpec", "SPECIFICATION ISpec"), simulate="num=1", depth=60, seed=seed, workers=1, timeout=300)
+        bi = vlib.tlc_prints(gi2["out"], "RL")
+        if "Error:" in gi2["out"] or not bi:
+            raise Inconclusive("MCRateLimit idle behaviour failed:\n" + gi2["out"][-2000:])
+        behaviours += bi[:1]
     cf = work.path("combos.ndjson")
     vlib.write_programs(cf, combos)
     rf = work.path("rl-beh.ndjson")
